@@ -117,7 +117,24 @@ func runAudit(prop string, rules []*Rule) *AuditResult {
 				res.BenignStale++
 				return
 			}
+			// a refactoring may move the construct of an OPEN known finding (a genuine, recorded defect) to a new site:
+			// the defect is then rightly reported under its new name; its meta.json names the rule
+			var meta struct {
+				Moves []string `json:"moves_known_finding"`
+			}
+			if b, err := os.ReadFile(filepath.Join(filepath.Dir(bp), "meta.json")); err == nil {
+				json.Unmarshal(b, &meta)
+			}
 			for _, l := range strings.Split(string(out), "\n") {
+				moved := false
+				for _, r := range meta.Moves {
+					if strings.Contains(l, "rule="+r+" ") {
+						moved = true
+					}
+				}
+				if moved {
+					continue
+				}
 				if strings.HasPrefix(l, "VIOLATION") || strings.HasPrefix(l, "BROKEN") {
 					if len(l) > 220 {
 						l = l[:220]
